@@ -11,10 +11,10 @@ Definition rot1 (x : ckey) : res ckey := rotate_complex_once (fst x) (snd x).
 
 (* the loop `for e in range(n): record; rotate`: n rotations are performed, the
    first n representations are recorded *)
-Fixpoint rot_iter (n : nat) (x : ckey) : res (list ckey) :=
+Fixpoint rot_record (n : nat) (x : ckey) : res (list ckey) :=
   match n with
   | 0 => Ok []
-  | S k => dor y <- rot1 x; dor r <- rot_iter k y; Ok (x :: r)
+  | S k => dor y <- rot1 x; dor r <- rot_record k y; Ok (x :: r)
   end.
 
 Definition n_strands (seq : list pstr) : nat := length (make_strand_table_list sPlus seq).
@@ -36,7 +36,7 @@ Definition min_key (l : list ckey) : option ckey :=
 Definition identifiers_fresh (seq : list pstr) (struct : list chr) : res (ckey * Z * list ckey) :=
   if negb (length seq =? length struct) then Err eObjectInit else
   let n := n_strands seq in
-  dor rots <- rot_iter n (seq, struct);
+  dor rots <- rot_record n (seq, struct);
   match min_key rots with
   | None => Err eIndex
   | Some canon =>
@@ -85,7 +85,7 @@ Fixpoint rot_list (n : nat) (x : ckey) : res (list ckey) :=
   | 0 => Ok []
   | S k => dor y <- rot1 x; dor r <- rot_list k y; Ok (y :: r)
   end.
-Definition obj_rotate (o : cobj) (turns : nat) : res (list ckey) :=
+Definition cobj_rotate (o : cobj) (turns : nat) : res (list ckey) :=
   dor r <- rot_list (turns - 1) (o_seq o, o_struct o); Ok ((o_seq o, o_struct o) :: r).
 
 (* the turns setter (after the fix: resets the lazily computed data) *)
@@ -94,7 +94,7 @@ Definition set_turns (o : cobj) (v : Z) : res cobj :=
   if tot =? 0 then Err eZeroDiv else
   let t := wrap (- o_turns o1 + v) (Z.of_nat tot) in
   (* the generator is consumed up to index t only *)
-  dor rots <- obj_rotate o1 (S (Z.to_nat t));
+  dor rots <- cobj_rotate o1 (S (Z.to_nat t));
   match nth_error rots (Z.to_nat t) with
   | Some (s, st) => Ok (mkc (o_canon o1) (wrap v (Z.of_nat tot)) s st None None None None)
   | None => Err eObjectInit
